@@ -159,6 +159,42 @@ def same_object_section(rep, ap, rng, tier):
             b -= 0.125
 
 
+def constant_index_section(rep, ap, rng, tier):
+    """traced values indexed with CONSTANT boolean masks and integer index lists / arrays (alone and inside tuples): recorded value and
+    replays at other points equal the program run directly (forward evaluation only)"""
+    for it in range(10 if tier == 'quick' else 120):
+        n = rng.randint(3, 5)
+        mask = numpy.array([rng.random() < 0.5 for _ in range(n)]); mask[rng.randrange(n)] = True; mask[rng.randrange(n)] = False if mask.sum() > 1 else mask[rng.randrange(n)]
+        ilist = [rng.randrange(n) for _ in range(rng.randint(1, 3))]
+        rowmask = numpy.array([True, False, True])[:3]
+        forms = {'x[bool array]': lambda z: z[mask], 'x[bool list]': lambda z: z[mask.tolist()], 'x[int list]': lambda z: z[ilist], 'x[int array]': lambda z: z[numpy.array(ilist)],
+                 'A[rowmask, 1:]': None}
+        name = list(forms)[it % len(forms)]
+        rep.count('constant index', name)
+        rep.case(('const-index', name, it), True, sample=dict(check='constant mask / index list', form=name))
+        try:
+            if name == 'A[rowmask, 1:]':
+                f = lambda z: ap.sum(ap.reshape(z, (3, 2))[rowmask, 1:] * 1.5) + ap.sum(z)
+                n_in = 6
+            else:
+                g = forms[name]
+                f = lambda z: ap.sum(g(z) * g(z)) + ap.sum(ap.sin(g(z)))
+                n_in = n
+            x_rec = progs.rand_point(rng, n_in)
+            cg = ap.CGraph(); fx = ap.Function(x_rec.copy()); fy = f(fx); cg.trace_off(); cg.independentFunctionList = [fx]; cg.dependentFunctionList = [fy]
+            rec_ok = abs(float(as_data(fy.x)) - float(f(x_rec.copy()))) <= 1e-12 * (1 + abs(float(f(x_rec.copy()))))
+            ok = rec_ok
+            for kind in ('ndarray', 'UTPM'):
+                xn = progs.rand_point(rng, n_in) if kind == 'ndarray' else ap.UTPM(progs.rand_utpm_data(rng, 2, 2, n_in))
+                got = cg.function([xn])[0]; want = f(xn if kind == 'ndarray' else ap.UTPM(xn.data.copy()))
+                ok = ok and same(got, want)
+        except Exception as e:
+            rep.notes.append('constant index %s raised %r' % (name, e)); continue
+        if not ok:
+            rep.violation('replay:constant-index:%s' % name.split('[')[1][:4], 'traced %s with a constant mask / index list: recorded value or replay differs from the program run directly' % name,
+                          dict(kind='const-index', form=name, mask=mask.tolist(), ilist=ilist))
+
+
 def multi_input_section(rep, ap, rng, tier):
     """graphs with several independent variables, wrapped eagerly (all first) or lazily (operations on the first input are recorded
     before the second input is wrapped; a buffer is allocated in between): replay at other points / kinds / D, P against the program
@@ -313,6 +349,7 @@ def main(tier, seed):
     multi_input_section(rep, ap, rng, tier)
     complex_replay_section(rep, ap, rng, tier)
     same_object_section(rep, ap, rng, tier)
+    constant_index_section(rep, ap, rng, tier)
     verdicts, logs = lib.eval_bool_cases(PID, tm.IMPORTS, tm.DEFS, terms, per_file=40)
     bad = 0
     for m, v, t in zip(metas, verdicts, terms):
